@@ -49,6 +49,12 @@ CHECKS = {
         text="The property says which composition each derived operation IS and that every alias returns what the canonical member returns: that is a statement about the forwarding structure of LieGroupBase, TangentBase and functions.h, finite and decidable on the resolved AST. For 8 group variants the check normalises 33 entries each (5 definitions, plus/minus, operators + - * == += *=, lift/retract, t.rplus/lplus/plus(X), t+X, 14 free functions) to terms over {compose, inverse, exp, log, ...} and requires syntactic equality with the documented term / the canonical member's term; each optional Jacobian must receive the term of the output with the same role.",
         note="Trusted: clang's overload resolution and CRTP dispatch as recorded in the AST. Per-group members are uninterpreted symbols (their correctness is C01-C03). The numerical corollaries ((X+t)-X = t) are not decided.",
     ),
+    "C11": dict(
+        level="proof", design="3/C11",
+        technique="static analysis: compile-time static_assert witnesses on generated layouts; exact symbolic placement of the Bundle's tables (affine-form abstract interpreter); definite-assignment + exact-zero dataflow on every Bundle Jacobian; AST rules on pack expansions; raw-view bounds",
+        text="'Direct product' is a layout statement: offsets are prefix sums (decided by the compiler's constant evaluator on 48 generated layouts where every group appears first, middle, last, repeated and alone), every table-valued operation (hat, Vee, generators, smallAdj, inner weights) equals the block-diagonal assembly of the element groups' own tables at independently computed offsets (exact), every Jacobian result/output is fully written inside the element blocks and provably exactly zero outside, each X_impl calls X on element<i>() with the index of its block, and element<i>() views lie exactly on the i-th element's coefficients. The analysed layout (SE2,SO3,R4,SGal3) makes the five kinds of offset pairwise distinguishable.",
+        note="Values inside the element blocks are the element groups' own operations (other properties). The name-based R-KIND rule of the design was replaced by these semantic placement checks (no false alarm on renamed but equal offset expressions). Trusted: clang constant evaluation, documented element sizes table, Eigen block semantics.",
+    ),
 }
 
 NOT_APPLICABLE = {
